@@ -538,14 +538,19 @@ fn replay(args: &Args) {
                         x => panic!("operation {:?}", x),
                     };
                 }
-                let receipt = lkx.w.ledger.execute_manifest(b.build(), vec![]);
+                // a panic of the code under test is data: outcome "panic:<message>"
+                let manifest = b.build();
+                let run = catch(|| lkx.w.ledger.execute_manifest(manifest, vec![]));
                 steps += 1;
-                if monitoring {
+                if let (true, Ok(receipt)) = (monitoring, &run) {
                     if let TransactionResult::Commit(c) = &receipt.result {
                         mon.record("tx", &format!("b{}:{}:{}:{}", bi, si, item, op), &c.state_updates, lkx.w.ledger.substate_db());
                     }
                 }
-                let got = class(&receipt);
+                let got = match &run {
+                    Ok(receipt) => class(receipt),
+                    Err(msg) => format!("panic:{}", msg).chars().take(160).collect(),
+                };
                 let exp = st["vd"].as_str().unwrap();
                 if got != exp {
                     out.mismatch(bi, si, &format!("outcome ({:?})", host), json!(exp), json!(got));
